@@ -25,6 +25,15 @@ struct wrap_http {
 	size_t nallocs, nrefused, nlive;
 	size_t fail_at, fail_from;
 	int overflow;
+	/* a SECOND connection (option peer=..): the second socket() of the case belongs to another
+	 * request that is alive at the same time; its complete response arrives in one piece, followed by
+	 * EOF, once the first connection has delivered b_after data segments (or has nothing more to
+	 * deliver / its request is over); while it is arriving the first connection is silent */
+	int has_b, fd_a, fd_b, a_done, b_done, b_eof;
+	const uint8_t * bstream;
+	size_t bstreamlen, bpos, b_after, a_datasegs;
+	uint8_t * bsent;
+	size_t bsentlen, bsentcap;
 	/* call counters */
 	size_t nsocket, nconnect, nclose, npoll, nrecv, nsend;
 };
